@@ -15,7 +15,7 @@ def run(tier, rep):
     def relation(rep, inst, cases):
         pc.run_relation(rep, "c11-rewrite", inst, cases, stride=strides[inst], extra=["--all", 0 if tier == "quick" else 1])
 
-    pc.check(rep, "C11", tier, ["text", "children", "attrs", "mixed"], set(), None, 0, rule=RULE, relation=relation,
+    pc.check(rep, "C11", tier, ["text", "children", "attrs", "mixed", "names"], set(), None, 0, rule=RULE, relation=relation,
              invariants=["TypeOK", "FormInsensitive", "Exact"], nontrivial=lambda x: x["expect"]["st"] == "ok")
     rep.add(traces_validated_against_impl=rep.coverage.get("relation_applications", 0))
     rep.assumptions += ["text versus no text, and whitespace-only text, are structure (the default reader does not trim) and "
